@@ -330,6 +330,7 @@ func runC14(c *Ctx) {
 		"(*pkg/scheduler/plugins/proportion.proportionPlugin).deallocateHandlerFn":                      "accounting: deallocate handler",
 		"(*pkg/scheduler/plugins/proportion.proportionPlugin).updateQueuesResourceUsageForAllocatedJob": "snapshot-time accumulation over allocated jobs",
 		"(*pkg/scheduler/plugins/proportion.proportionPlugin).updateQueuesResourceUsageForPendingJob":   "snapshot-time accumulation over pending jobs",
+		"(*pkg/scheduler/plugins/proportion.proportionPlugin).updateQueuesCurrentResourceUsage":         "snapshot-time accumulation: the root of the two accumulating helpers (a helper called only from here inherits)",
 		"(*pkg/scheduler/plugins/proportion/resource_share.ResourceShare).Clone":                        ctor,
 		"(*pkg/scheduler/plugins/proportion/resource_share.ResourceShareOverrides).ResourceShare":       ctor,
 		"pkg/scheduler/plugins/proportion/queue_order.calculateDominantResourceShareWithJob":            "what-if inside one comparison: saves Allocated, adjusts, restores the saved value before returning (checked below)",
